@@ -2,7 +2,8 @@
    for single-source pipelines: the exported frame is the reference table, for all data. *)
 From Coq Require Import List String NArith ZArith Bool Lia Arith.
 From PDT Require Import Base.StableSort Model.Dtype Model.Value Model.Ops Model.Expr Model.RefSem Model.SqlCompile
-     Model.PlCompile Proofs.SortLemmas Proofs.RefLemmas Proofs.EvalLemmas Proofs.GroupLemmas Proofs.SqlCompileLemmas.
+     Model.PlCompile Proofs.SortLemmas Proofs.RefLemmas Proofs.EvalLemmas Proofs.GroupLemmas Proofs.SqlCompileLemmas
+     Proofs.EvalRel.
 From PDTGen Require Import Catalogue.
 Import ListNotations.
 Open Scope nat_scope.
@@ -268,9 +269,45 @@ Proof.
   rewrite get_view by exact Hd. symmetry. apply Hrf. exact Hd.
 Qed.
 
-Lemma Forall2_combine_seq {A B} (R : A -> B -> Prop) l l' : Forall2 R l l' -> forall n m,
-  Forall2 (fun a b => R (snd a) (snd b)) (combine (seq n (List.length l)) l) (combine (seq m (List.length l')) l').
-Proof. induction 1 as [|a b l l' Hab _ IH]; intros n m; simpl; constructor; [exact Hab|apply IH]. Qed.
+Lemma Forall2_combine_seq {A B} (R : A -> B -> Prop) l l' : Forall2 R l l' -> forall n,
+  Forall2 (fun a b => fst a = fst b /\ R (snd a) (snd b)) (combine (seq n (List.length l)) l) (combine (seq n (List.length l')) l').
+Proof. induction 1 as [|a b l l' Hab _ IH]; intros n; simpl; constructor; [split; [reflexivity|exact Hab]|apply IH]. Qed.
+
+(* any expression - element-wise, aggregate, window - evaluated on the frame through name_in_df has the value the
+   reference gives it on the related rows *)
+Lemma ctx_irel ns (X : list uid) (rowsR : list row) (rowsP : list nrow) :
+  (forall x, In x X -> In x (dom ns)) -> Forall2 (prel ns) rowsR rowsP ->
+  Forall2 (irel X) (pctx ns rowsP) (index_rows rowsR).
+Proof.
+  intros Hd F. unfold pctx, index_rows. rewrite map_length.
+  assert (F2 : Forall2 (fun (a : nrow) (b : row) => forall x, In x X -> nget a (pname ns x) = get b x) rowsP rowsR).
+  { clear -F Hd. induction F as [|a b l l' Hab _ IH]; constructor; [|exact IH]. intros x Hx. symmetry. apply Hab. apply Hd. exact Hx. }
+  clear F. revert F2. generalize 0. generalize rowsR. induction rowsP as [|fp rowsP IH]; intros rowsR0 n F2; inversion F2; subst; simpl; constructor.
+  - split; [reflexivity|]. intros x Hx. simpl. rewrite get_view by (apply Hd; exact Hx). auto.
+  - apply IH. assumption.
+Qed.
+
+Lemma peval_gen ns (rowsR : list row) (rowsP : list nrow) e (r : row) (f : nrow) i :
+  Forall2 (prel ns) rowsR rowsP -> prel ns r f -> pscoped ns e = true ->
+  eval (pctx ns rowsP) (i, view ns f) e = eval (index_rows rowsR) (i, r) e.
+Proof.
+  intros F Hrf Sc. pose proof (forallb_mem_incl _ _ Sc) as Hd.
+  apply eval_rel.
+  - apply ctx_irel; assumption.
+  - split; [reflexivity|]. intros x Hx. simpl. rewrite get_view by (apply Hd; exact Hx). symmetry. apply Hrf. apply Hd. exact Hx.
+Qed.
+
+(* an expression evaluated for a group: context = the group, current row = its first row *)
+Lemma group_eval e ns (gR : list row) (gP : list nrow) :
+  pscoped ns e = true -> Forall2 (prel ns) gR gP ->
+  eval (index_rows gR) (match index_rows gR with ir :: _ => ir | [] => (O, []) end) e
+  = eval (pctx ns gP) (match pctx ns gP with ir :: _ => ir | [] => (O, []) end) e.
+Proof.
+  intros Sc F. pose proof (forallb_mem_incl _ _ Sc) as Hd. symmetry. apply eval_rel.
+  - apply ctx_irel; assumption.
+  - pose proof (ctx_irel ns (cols e) gR gP Hd F) as C. destruct C as [|a b l l' Hab _]; [|exact Hab].
+    split; [reflexivity|]. intros x _. reflexivity.
+Qed.
 
 (* ---------- Source ---------- *)
 Lemma nget_combine_user (cols : list (string * uid)) (vs : list value) u :
@@ -374,27 +411,28 @@ Proof.
 Qed.
 
 Lemma pfilter_case s st ps :
-  PInv s st -> PAux st -> forallb elem ps = true -> forallb (pscoped (p_ns st)) ps = true ->
+  PInv s st -> PAux st -> forallb (pscoped (p_ns st)) ps = true ->
   PInv (do_filter s ps) (pl_filter st ps) /\ PAux (pl_filter st ps).
 Proof.
-  intros [R S G] A El Sc. rewrite forallb_forall in El, Sc. split.
+  intros [R S G] A Sc. rewrite forallb_forall in Sc. split.
   - constructor; [|exact S|exact G].
     rewrite filter_keeps_exactly_true. unfold pl_filter. cbn [p_rows p_ns].
     apply Forall2_map_l. apply Forall2_map_r.
-    apply (Forall2_filter (fun (a : irow) (b : nat * nrow) => prel (p_ns st) (snd a) (snd b))).
-    + apply (Forall2_combine_seq (prel (p_ns st)) _ _ R 0 0).
-    + intros [i r] [j f] Hrf. simpl in Hrf. unfold passes. apply forallb_ext_in'. intros p Hp. f_equal. simpl.
-      symmetry. apply peval_ref; [exact Hrf|apply El; exact Hp|apply Sc; exact Hp].
+    eapply (Forall2_impl' (fun (a : irow) (b : nat * nrow) => fst a = fst b /\ prel (p_ns st) (snd a) (snd b))); [intros a b H; exact (proj2 H)|].
+    apply Forall2_filter.
+    + exact (Forall2_combine_seq (prel (p_ns st)) _ _ R 0).
+    + intros [i r] [j f] [Eij Hrf]. simpl in Eij, Hrf. subst j. unfold passes. apply forallb_ext_in'. intros p Hp. f_equal. cbn [fst snd].
+      symmetry. apply (peval_gen (p_ns st) (rows s) (p_rows st) p r f i R Hrf). apply Sc. exact Hp.
   - apply paux_rows_subset; [exact A|]. intros f Hf. apply in_map_iff in Hf. destruct Hf as [[i f0] [<- Hf]].
     apply filter_In in Hf. destruct Hf as [Hf _]. apply in_combine_r in Hf. exact Hf.
 Qed.
 
 Lemma parrange_case s st os :
-  PInv s st -> PAux st -> forallb (fun o => elem (fst o)) os = true ->
+  PInv s st -> PAux st ->
   forallb (fun o => pscoped (p_ns st) (fst o)) os = true ->
   PInv (do_arrange s os) (pl_arrange st os) /\ PAux (pl_arrange st os).
 Proof.
-  intros [R S G] A El Sc. rewrite forallb_forall in El, Sc. split.
+  intros [R S G] A Sc. rewrite forallb_forall in Sc. split.
   - constructor; [|exact S|exact G].
     cbn [rows do_arrange]. unfold pl_arrange. cbn [p_rows p_ns].
     set (ctxR := index_rows (rows s)). set (ctxP := pctx (p_ns st) (p_rows st)). set (ms := map snd os).
@@ -404,9 +442,9 @@ Proof.
                          (map (fun ifr => (map (fun o => eval ctxP (fst ifr, view (p_ns st) (snd ifr)) (fst o)) os, ifr))
                               (combine (seq 0 (List.length (p_rows st))) (p_rows st)))).
     { apply Forall2_map_l. apply Forall2_map_r.
-      pose proof (Forall2_combine_seq (prel (p_ns st)) _ _ R 0 0) as R2.
-      eapply Forall2_impl'; [|exact R2]. intros [i r] [j f] Hrf. cbn [fst snd] in *. split; [|exact Hrf].
-      apply map_ext_in. intros o Ho. symmetry. apply peval_ref; [exact Hrf|apply El; exact Ho|apply Sc; exact Ho]. }
+      pose proof (Forall2_combine_seq (prel (p_ns st)) _ _ R 0) as R2.
+      eapply Forall2_impl'; [|exact R2]. intros [i r] [j f] [Eij Hrf]. cbn [fst snd] in *. subst j. split; [|exact Hrf].
+      apply map_ext_in. intros o Ho. symmetry. apply (peval_gen (p_ns st) (rows s) (p_rows st) (fst o) r f i R Hrf). apply Sc. exact Ho. }
     apply (Forall2_ssort (fun a b => match cmp_keys ms a b with Gt => false | _ => true end)
                          (fun (ir : irow) (ifr : nat * nrow) => prel (p_ns st) (snd ir) (snd ifr))) in H2.
     apply Forall2_map_l. apply Forall2_map_r.
@@ -486,12 +524,12 @@ Proof. intros ND Hd. unfold pname. rewrite (assoc_u_app_found _ _ _ _ (assoc_new
 
 Lemma pmutate_case s st defs :
   PInv s st -> PAux st ->
-  forallb (fun dd => elem (snd dd)) defs = true -> pfresh (p_ns st) defs = true ->
+  pfresh (p_ns st) defs = true ->
   forallb (fun dd => pscoped (p_ns st) (snd dd)) defs = true ->
   PInv (do_mutate s defs) (pl_mutate st defs) /\ PAux (pl_mutate st defs).
 Proof.
-  intros [R S G] A El Fr Sc. destruct (pfresh_spec _ _ Fr) as [ND [NDn Hfresh]].
-  rewrite forallb_forall in El, Sc.
+  intros [R S G] A Fr Sc. destruct (pfresh_spec _ _ Fr) as [ND [NDn Hfresh]].
+  rewrite forallb_forall in Sc.
   set (nms := map (fun d => fst (fst d)) defs).
   set (consider := map snd (p_ns st)).
   set (st1 := rename_over nms consider st).
@@ -505,15 +543,15 @@ Proof.
   - constructor.
     + rewrite do_mutate_rows. unfold pl_mutate. cbn [p_rows p_ns]. fold nms consider st1. change (map (fun d : string * uid * expr => (snd (fst d), User (fst (fst d)))) defs) with (new_ns defs).
       apply Forall2_map_l. apply Forall2_map_r.
-      pose proof (Forall2_combine_seq (prel (p_ns st1)) _ _ R1 0 0) as R2.
-      eapply Forall2_impl'; [|exact R2]. intros [i r] [j f1] Hrf. cbn [fst snd] in *.
+      pose proof (Forall2_combine_seq (prel (p_ns st1)) _ _ R1 0) as R2.
+      eapply Forall2_impl'; [|exact R2]. intros [i r] [j f1] [Eij Hrf]. cbn [fst snd] in *. subst j.
       intros u Hu. rewrite dom_new_ns, Dom1 in Hu.
       destruct (in_dec N.eq_dec u (def_uids defs)) as [Hnew|Hold].
       * destruct (in_def_uids defs u Hnew) as [dd [Hdd Eu]]. subst u.
         rewrite (apply_defs_new (index_rows (rows s)) (i, r) defs r dd ND Hdd).
         rewrite (pname_new_found defs (p_ns st1) dd ND Hdd).
-        rewrite (nget_newcols (fun d0 => eval (pctx (p_ns st1) (p_rows st1)) (j, view (p_ns st1) f1) (snd d0)) defs f1 dd NDn Hdd).
-        symmetry. apply peval_ref; [exact Hrf|apply El; exact Hdd|].
+        rewrite (nget_newcols (fun d0 => eval (pctx (p_ns st1) (p_rows st1)) (i, view (p_ns st1) f1) (snd d0)) defs f1 dd NDn Hdd).
+        symmetry. apply (peval_gen (p_ns st1) (rows s) (p_rows st1) (snd dd) r f1 i R1 Hrf).
         unfold pscoped. rewrite Dom1. apply Sc. exact Hdd.
       * apply in_app_or in Hu. destruct Hu as [Hu|Hu]; [contradiction|].
         rewrite apply_defs_other by exact Hold. rewrite pname_new_other by exact Hold.
@@ -707,15 +745,14 @@ Qed.
 
 Lemma psummarize_case s st defs :
   PInv s st -> PAux st ->
-  forallb (fun dd => agg1 (snd dd)) defs = true -> pfresh (p_ns st) defs = true ->
+  pfresh (p_ns st) defs = true ->
   forallb (fun dd => pscoped (p_ns st) (snd dd)) defs = true ->
-  forallb (fun dd => forallb (fun x => mem_u x (p_part st)) (gcols (snd dd))) defs = true ->
   forallb (fun u => mem_u u (p_select st)) (p_part st) = true ->
   forallb (fun u => negb (user_in (pname (p_ns st) u) (map (fun dd => fst (fst dd)) defs))) (p_part st) = true ->
   PInv (do_summarize s defs) (pl_summarize st defs) /\ PAux (pl_summarize st defs).
 Proof.
-  intros [R S G] A Ag Fr Sc Gc Ps Pn. destruct (pfresh_spec _ _ Fr) as [ND [NDn Hfresh]].
-  rewrite forallb_forall in Ag, Sc, Gc, Pn. pose proof (forallb_mem_incl _ _ Ps) as PartSel.
+  intros [R S G] A Fr Sc Ps Pn. destruct (pfresh_spec _ _ Fr) as [ND [NDn Hfresh]].
+  rewrite forallb_forall in Sc, Pn. pose proof (forallb_mem_incl _ _ Ps) as PartSel.
   set (nms := map (fun dd : string * uid * expr => fst (fst dd)) defs) in *.
   set (part := p_part st) in *.
   set (consider := map (pname (p_ns st)) part).
@@ -780,9 +817,8 @@ Proof.
         rewrite (apply_defs_new ctxR curR defs (zip_row part k) dd ND Hdd).
         rewrite (pname_new_found defs _ dd ND Hdd).
         rewrite (nget_newcols (fun d0 => eval (pctx ns1 gP) (match pctx ns1 gP with ir :: _ => ir | [] => (O, []) end) (snd d0)) defs _ dd NDn Hdd).
-        apply (agg1_local (snd dd) ns1 gR gP (Ag dd Hdd)); [|exact HgRP|].
-        -- unfold pscoped. rewrite Dom1. apply Sc. exact Hdd.
-        -- intros x Hx. apply Hcur. apply (forallb_mem_incl _ _ (Gc dd Hdd)). exact Hx.
+        apply (group_eval (snd dd) ns1 gR gP); [|exact HgRP].
+        unfold pscoped. rewrite Dom1. apply Sc. exact Hdd.
       * apply in_app_or in Hu. destruct Hu as [Hu|Hu]; [contradiction|].
         assert (Hup : In u part).
         { unfold dom in Hu. apply in_map_iff in Hu. destruct Hu as [un [E Hun]]. apply filter_In in Hun. destruct Hun as [_ M]. apply mem_u_In in M. rewrite <- E. exact M. }
@@ -850,14 +886,14 @@ Proof.
     apply andb_prop in F. destruct F as [Fa F2]. apply andb_prop in F2. destruct F2 as [F2 F3].
     destruct (IH st0 eq_refl Fa) as [I A]. cbn [sem_ref]. exact (prename_case _ _ m I A F2 F3).
   - simpl in C, F. destruct (pl_compile d a) as [st0|] eqn:E; [|discriminate C]. inversion C; subst; clear C.
-    apply andb_prop in F. destruct F as [F F3]. apply andb_prop in F. destruct F as [Fa Fe].
+    apply andb_prop in F. destruct F as [Fa F3].
     apply andb_prop in F3. destruct F3 as [Ffr Fsc]. destruct (IH st0 eq_refl Fa) as [I A].
     cbn [sem_ref]. apply pmutate_case; assumption.
   - simpl in C, F. destruct (pl_compile d a) as [st0|] eqn:E; [|discriminate C]. inversion C; subst; clear C.
-    apply andb_prop in F. destruct F as [F Fsc]. apply andb_prop in F. destruct F as [Fa Fe].
+    apply andb_prop in F. destruct F as [Fa Fsc].
     destruct (IH st0 eq_refl Fa) as [I A]. cbn [sem_ref]. apply pfilter_case; assumption.
   - simpl in C, F. destruct (pl_compile d a) as [st0|] eqn:E; [|discriminate C]. inversion C; subst; clear C.
-    apply andb_prop in F. destruct F as [F Fsc]. apply andb_prop in F. destruct F as [Fa Fe].
+    apply andb_prop in F. destruct F as [Fa Fsc].
     destruct (IH st0 eq_refl Fa) as [I A]. cbn [sem_ref]. apply parrange_case; assumption.
   - simpl in C, F. destruct (pl_compile d a) as [st0|] eqn:E; [|discriminate C]. inversion C; subst; clear C.
     destruct (IH st0 eq_refl F) as [I A]. cbn [sem_ref]. apply pslice_case; assumption.
@@ -872,10 +908,9 @@ Proof.
   - simpl in C, F. destruct (pl_compile d a) as [st0|] eqn:E; [|discriminate C]. inversion C; subst; clear C.
     destruct (IH st0 eq_refl F) as [I A]. cbn [sem_ref]. apply ppart_case; [assumption|assumption|]. intros x Hx. destruct Hx.
   - simpl in C, F. destruct (pl_compile d a) as [st0|] eqn:E; [|discriminate C]. inversion C; subst; clear C.
-    apply andb_prop in F. destruct F as [F F3]. apply andb_prop in F. destruct F as [Fa Fe].
-    repeat (apply andb_prop in F3; let H := fresh "G" in destruct F3 as [F3 H]).
-    destruct (IH st0 eq_refl Fa) as [I A]. cbn [sem_ref]. apply psummarize_case; try assumption.
-    unfold pfresh. rewrite F3, G4. simpl. exact G3.
+    apply andb_prop in F. destruct F as [Fa F3].
+    apply andb_prop in F3. destruct F3 as [F3 G3]. apply andb_prop in F3. destruct F3 as [F3 G2]. apply andb_prop in F3. destruct F3 as [G0 G1].
+    destruct (IH st0 eq_refl Fa) as [I A]. cbn [sem_ref]. apply psummarize_case; assumption.
   - destruct m as [m|]; [simpl in C; discriminate C|]. simpl in C, F. cbn [sem_ref do_alias]. apply IH; assumption.
   - simpl in C. discriminate C.
   - simpl in C. discriminate C.
